@@ -227,7 +227,7 @@ def distance_sub_keeps_infinity(ctx, rid="R3"):
                 if i2 is not None and i2.kind == "assign" and i2.rv_kind() == "discr":
                     pl = i2.discr_place()
                     root = pl.local
-                    if root == 1:
+                    if root_local(fd, root) == 1:
                         on_self = True
                     else:
                         # a tuple (self, other) built first: field 0 is self
@@ -235,7 +235,7 @@ def distance_sub_keeps_infinity(ctx, rid="R3"):
                         if ds and pl.proj and pl.proj[0].get("k") == "field":
                             fi = pl.proj[0].get("i")
                             op = ds[0].instr.ops[fi] if fi is not None and fi < len(ds[0].instr.ops) else None
-                            if op is not None and op.place is not None and op.place.local == 1:
+                            if op is not None and op.place is not None and root_local(fd, op.place.local) == 1:
                                 on_self = True
         if not on_self:
             bad.append(pc)
